@@ -466,6 +466,9 @@ type SSClient struct {
 	Local string
 	T0    time.Time    // taken before dialling
 	sent  atomic.Int64 // wire bytes written
+	// firstWrite is when the first write completed (unix nano): a harness client that was
+	// descheduled for long between dialling and writing makes handshake-timeout cases unjudgeable
+	firstWrite atomic.Int64
 }
 
 // DialSS connects to server from the given source IP (nil: kernel's choice) with a chosen salt.
@@ -492,8 +495,15 @@ func DialSS(server string, src net.IP, key KeySpec, salt []byte) (*SSClient, err
 // SentBytes is the number of wire bytes written so far.
 func (c *SSClient) SentBytes() int64 { return c.sent.Load() }
 
+// LateBy reports whether the first write completed later than d after dialling began.
+func (c *SSClient) LateBy(d time.Duration) bool {
+	fw := c.firstWrite.Load()
+	return fw != 0 && time.Unix(0, fw).Sub(c.T0) > d
+}
+
 func (c *SSClient) WriteRaw(b []byte) error {
 	n, err := c.Conn.Write(b)
+	c.firstWrite.CompareAndSwap(0, time.Now().UnixNano())
 	c.sent.Add(int64(n))
 	return err
 }
